@@ -80,6 +80,7 @@ use crate::sigrec::{self, SigFields, Subject, WKey};
 mod cert;
 mod cleartext;
 mod embedded;
+mod recut;
 mod inline;
 mod multi;
 mod text;
@@ -1391,5 +1392,6 @@ pub fn run(ctx: &mut Ctx) {
     cleartext::run(ctx, &fixes);
     cert::run(ctx, &fixes);
     embedded::run(ctx, &fixes);
+    recut::run(ctx);
 }
 
